@@ -61,6 +61,25 @@ decreasing_by
   have : 0 < x.length := by cases x <;> simp_all
   omega
 
+/-- the tokens produced before the loop stops (all of them when it succeeds) -/
+def lexPrefix {τ : Type} (L : Lexer τ) (x : Bytes) (off : Nat) : List (Spanned τ) :=
+  if x = [] then []
+  else
+    match L.tok x with
+    | none => []
+    | some (t, n) =>
+      if h : 0 < n ∧ n ≤ x.length then ⟨t, off, off + n⟩ :: lexPrefix L (x.drop n) (off + n)
+      else []
+termination_by x.length
+decreasing_by
+  simp only [List.length_drop]
+  have : 0 < x.length := by cases x <;> simp_all
+  omega
+
+def LexErr.shift (d : Nat) : LexErr → LexErr
+  | .lexError o => .lexError (o + d)
+  | .stuck o => .stuck (o + d)
+
 /-- `last_was_endline` after the loop (initially true) -/
 def lastIsEndline {τ : Type} (L : Lexer τ) (ts : List (Spanned τ)) : Bool :=
   match ts.getLast? with
